@@ -133,8 +133,15 @@ def run(tier, seed):
     res = Result("C14", tier, seed)
     work = Work("C14")
     try:
-        ok, blog = coq_build(["props/C14.vo", "corr/C14corr.vo"])
+        ok, blog = coq_build(["props/C14.vo", "props/C14link.vo", "corr/C14corr.vo"])
         proofs_ok, pa = proof_obligations(work, res, "C14.v", ok, blog)
+        n1, names1 = res.coverage["obligations"], res.coverage["theorems"]
+        d1 = res.coverage["discharged"]
+        ok2, pa2 = proof_obligations(work, res, "C14link.v", ok, blog)     # monitor-of-model link theorems
+        proofs_ok = proofs_ok and ok2
+        pa += pa2
+        res.coverage.update({"obligations": n1 + res.coverage["obligations"], "discharged": d1 + res.coverage["discharged"],
+                             "theorems": names1 + res.coverage["theorems"]})
         cases = gen_cases(seed, tier)
         write_jsonl(work.path("cases.jsonl"), cases)
         rc, out = go_test(work, ["common_test.go", "c14_test.go"], "^TestVerifC14$",
